@@ -25,7 +25,13 @@ MANIFEST = {
              "containers and the signature key); both translation units type-checked by g++ -std=c++17 -fsyntax-only against harness/stubs/boost/sml.hpp; the same stated semantics is run in Python over the "
              "rows parsed back from the real text (vs the interpreter and vs the extracted sml_run), and for non-threaded cases the generated implementation unit is compiled with a "
              "recording controller subclass against the FUNCTIONAL mini-sml header and executed: callback lines and Is<State>() flags vs the interpreter."),
-    "note": ("Self-consistency is proved for names, parameter lists and multiplicities of declarations; C++ type checking itself (name lookup, overload resolution, member "
+    "note": ("ENGINE BRIDGE (C09_engine_text, C09_sem_engine, C09_engine_text_nonvacuous): smgen.innerexpand_sml, the Python printer behind <<<TTT_BOOST_SML>>> / "
+             "<<<TTT_BOOST_SML_ENTRY_EXIT>>>, is part of the engine model (Model/EngineSM.sml_print: header, column padding to the longest present names, "
+             "the none / gnone / msmf::none replacements with their '__' and 'msmf::' strippings, rstrip, once-only hook rows, trailing loop over the states) as the "
+             "expansion function of the two single-tag stages; for every table of well-formed rows its text is the header line followed by the text of the items "
+             "of gen_sml (Model/SmlRender.v), so C09_rows / C09_entry_exit / C09_sem speak about what the engine writes. The real Impl_SML.cpp contains that text "
+             "verbatim on every case (sml.print), and the example's text is the real printer's output. "
+             "Self-consistency is proved for names, parameter lists and multiplicities of declarations; C++ type checking itself (name lookup, overload resolution, member "
              "types) stays OBSERVED by g++ -fsyntax-only against the stub, not proved. harness/stubs/boost/sml.hpp stands in for boost::sml "
              "(empty submodule): it implements the semantics STATED in Model/SmlTT.v for the subset used, it is not boost::sml; whether boost::sml itself orders exit/action/entry "
              "as stated is the assumption of C09_sem. "
@@ -40,7 +46,7 @@ ASSUMPTIONS = ["forallb row_ok T: start state and event are UpperCamelCase alpha
                "sml_names_ok: no guard is named Gnone/gnone (its functor instance would be the always-true guard's name); no action/guard is named <State>OnEntry/OnExit",
                "the semantics of boost::sml as stated in Model/SmlTT.v (C09_sem's assumption)"]
 TRUSTED = ["Coq 8.16.1 kernel (coqc; coqchk in the thorough tier)", "axioms: none",
-           "translator/smltmpl.py (ast of smgen.innerexpand_sml and the two replace_NONE helpers, regexes on the template, fail closed)",
+           "translator/smltmpl.py (ast of smgen.innerexpand_sml and the two replace_NONE helpers, regexes on the template, fail closed); Model/EngineSM.sml_print is a hand transcription of innerexpand_sml, tied to the real text on every case",
            "extraction: ExtrOcamlBasic + ExtrOcamlNativeString; ocaml/cmds_sm.ml",
            "harness row parser / declaration regexes; harness/stubs/boost/sml.hpp (functional stand-in with the stated semantics) and minunit.h",
            "modelled, not verified: boost::sml's reading of the table (row without `= state<..>` is internal, `*` marks the initial state); g++ 14 as type checker"]
@@ -302,6 +308,16 @@ def one_case(ctx, table, spec, ns, dll, compile_it, evs_with_args=None, bits=Non
             model = dec(ctx.km.call("gen_sml", "1", table))
             if model != items:
                 ctx.tie_broken("correspondence real make_transition_table vs SmlTT.gen_sml", {"table": table, "real": items, "model": model})
+            # the text: the table in the real file is what the engine model's printer (EngineSM.sml_print = innerexpand_sml) appends,
+            # which is the text of gen_sml's items (C09_engine_text); the indentation is the shipped template's
+            ws = " " * 16
+            rws = [list(r) for r in table]
+            printed = ctx.km.call("sml.print", ws, "1", rws).decode("utf-8", "surrogateescape")
+            ctx.count("sml_table_text_compared")
+            if printed == "" or printed not in files.get("%sStateMachineImpl_SML.cpp" % NAME, ""):
+                ctx.tie_broken("the transition table text of the generated Impl_SML.cpp differs from EngineSM.sml_print", {"table": table, "model": printed[:1500]})
+            if ctx.km.call("sml.text", ws, "1", rws).decode("utf-8", "surrogateescape") != printed:
+                ctx.tie_broken("SmlRender.sml_text differs from EngineSM.sml_print although C09_engine_text is proved", {"table": table})
         rows, hooks = spec_items(table)
         got_rows = [i for i in items if i[0] == "row"]
         got_hooks = sorted(i for i in items if i[0] != "row")
